@@ -1,5 +1,7 @@
 package values
 
+import "math"
+
 // A Range is the range of integers from b to e inclusive.
 type Range struct {
 	b, e int
@@ -15,8 +17,15 @@ func (r Range) Len() int {
 	if r.e < r.b {
 		return 0
 	}
-	return r.e + 1 - r.b
+	if n := r.e + 1 - r.b; n > 0 {
+		return n
+	}
+	return math.MaxInt // (the count itself does not fit)
 }
+
+// maxArrayRange is the longest range that is turned into an array (for a filter): a longer one is an error, not an
+// allocation that cannot succeed.
+const maxArrayRange = 10_000_000
 
 // Index is in the iteration interface
 func (r Range) Index(i int) any { return r.b + i }
